@@ -46,6 +46,7 @@ def rules(ctx):
     c197(ctx)
     c198(ctx)
     c199(ctx)
+    c1910(ctx)
 
 
 def c199(ctx):
@@ -126,6 +127,52 @@ def c199(ctx):
                       "sais_impl gives an LMS substring a name of its own without having found a difference from its predecessor (%s): equal substrings "
                       "named apart are never ordered by the recursion, and the suffix array -- hence locate / search -- is wrong for texts that repeat "
                       "such a substring" % why, pt=p_)
+
+
+def c1910(ctx):
+    R = "C19.10"
+    ctx.declare(R, "search and count agree: count answers the size of the backward-search range, and search locates one offset for every index of that "
+                   "range -- every element of the vector it returns is pushed in a loop over range.0..=range.1 (inclusive), once per turn, from sa.lookup")
+    fs = [f for k, f in ctx.prog.fns.items() if f.crate == "scrunch" and re.search(r"PsiDocument.* as scrunch::Document>::search$", k)]
+    ctx.floor(R, "PsiDocument::search", len(fs), 1)
+    for f in fs:
+        pushes = [p_ for p_ in P.call_points(f, r"alloc::vec::Vec.*::push$") if "TextOffset" in str(P.term_at(f, p_).get("ga"))]
+        ctx.floor(R, "search: offsets pushed", len(pushes), 1)
+        fills = P.call_points(f, r"Vec.*::(extend|extend_from_slice|append|insert|resize)$|Iterator::collect$|FromIterator.*::from_iter$")
+        fills = [p_ for p_ in fills if "TextOffset" in str(P.term_at(f, p_).get("ga"))]
+        # helpers that hand back offsets found some other way
+        others = [P.term_pt(f, b.idx) for b, t in f.calls() if "TextOffset" in f.locals[t["dest"]["l"]] and not t["dest"]["p"]
+                  and "Vec<" in f.locals[t["dest"]["l"]] and not re.search(r"Vec.*::(with_capacity|new)$|IntoIterator.*::into_iter$|vec::from_elem$|into_vec$|box_new_uninit|slice::.*into_vec", callee_skey(t) or "")]
+        ctx.check(R, f, "located-one-by-one", not fills and not others, "the result vector is filled by push only",
+                  "search fills its result some other way than one sa.lookup per index of the range (%s): not shown to report exactly the range count() answers with" %
+                  ", ".join(sorted({P.short(callee_skey(P.term_at(f, p_))) for p_ in fills + others})), pt=(fills + others)[0] if fills + others else None)
+        for p_ in pushes:
+            heads = [h for h in P.call_points(f, r"Iterator>?::next$|range::.*::next$") if P.reach(f, P.after(f, h), [p_]) and P.reach(f, P.after(f, p_), [h])]
+            incl = [h for h in heads if "RangeInclusive" in K.loop_iterator_type(f, h)]
+            ok = False
+            for h in incl:
+                for x in P.origins(f, P.term_at(f, h)["args"][0]):
+                    if x["k"] == "call" and x["callee"].endswith("RangeInclusive::new"):
+                        a, b = x["t"]["args"][0], x["t"]["args"][1]
+                        def tup(o):
+                            """(base local, tuple field) an operand is a plain copy of"""
+                            for _ in range(4):
+                                if o.get("k") not in ("copy", "move"):
+                                    return None
+                                pr = o["pl"]["p"]
+                                if pr and isinstance(pr[-1], dict) and pr[-1].get("of") == "()":
+                                    return (o["pl"]["l"], pr[-1]["f"])
+                                ds = [st for bb in f.blocks for st in bb.st if st["s"] == "=" and st["lhs"]["l"] == o["pl"]["l"] and not st["lhs"]["p"]]
+                                if pr or len(ds) != 1 or ds[0]["rv"].get("r") != "use":
+                                    return None
+                                o = ds[0]["rv"]["a"]
+                            return None
+                        ta, tb = tup(a), tup(b)
+                        names = K.src_names(f, a) | K.src_names(f, b)
+                        if ta and tb and ta[0] == tb[0] and (ta[1], tb[1]) == ("0", "1") and "backwards_search()" in names:
+                            ok = P.reach(f, P.after(f, h), [h], avoid={p_} | set(P.error_points(f))) is None
+            ctx.check(R, f, "one-offset-per-index", ok, "an offset is pushed on every turn of the loop over range.0..=range.1",
+                      "search does not push one located offset for every index of the backward-search range (inclusive, unmodified bounds)", pt=p_)
 
 
 def builder_params(f):
